@@ -260,18 +260,21 @@ class ExcludeRegionState(object):  # pylint: disable=too-many-instance-attribute
         boolean
             True if any point in the list is contained in an excluded region, False otherwise.
         """
-        if (self._exclusionEnabled):
-            xAxis = self.position.X_AXIS
-            yAxis = self.position.Y_AXIS
+        # The tracked position must follow every point (and end at the last pair) whether or not
+        # exclusion is enabled and whether or not an earlier point was excluded, otherwise later
+        # single-axis or relative moves would be evaluated against a stale position.
+        xAxis = self.position.X_AXIS
+        yAxis = self.position.Y_AXIS
+        excluded = False
 
-            for index in range(0, len(xyPairs), 2):
-                x = xAxis.setLogicalPosition(xyPairs[index])
-                y = yAxis.setLogicalPosition(xyPairs[index + 1])
+        for index in range(0, len(xyPairs), 2):
+            x = xAxis.setLogicalPosition(xyPairs[index])
+            y = yAxis.setLogicalPosition(xyPairs[index + 1])
 
-                if (self.isPointExcluded(x, y)):
-                    return True
+            if (not excluded and self.isPointExcluded(x, y)):
+                excluded = True
 
-        return False
+        return excluded
 
     def isExclusionEnabled(self):
         """Whether exclusion is currently enabled (True) or disabled (False)."""
